@@ -43,6 +43,7 @@ type Contract struct {
 	NoBody    bool
 	SafeUnder *SX // automatic safety obligations are claimed only under this condition
 	Uses      []string
+	AfterCall []*Clause // must hold right after every abstract (external) call: crash points
 }
 
 // ContractSet holds all contracts of one package plus raw SMT prelude text.
@@ -244,7 +245,7 @@ func (cs *ContractSet) handle(cur **Contract, txt, src string) error {
 		ind.Theory = cs.curTheory
 		cs.Inducts = append(cs.Inducts, ind)
 		return nil
-	case "guardrule", "constfield", "elemptr":
+	case "guardrule", "constfield", "elemptr", "modelstruct":
 		cs.Directives = append(cs.Directives, [3]string{head, rest, src})
 		return nil
 	}
@@ -276,6 +277,12 @@ func (cs *ContractSet) handle(cur **Contract, txt, src string) error {
 	case "modifies":
 		c.ModSet = true
 		c.Modifies = append(c.Modifies, strings.Fields(rest)...)
+	case "after-each-call":
+		cl, err := parseClause("crash", rest, src)
+		if err != nil {
+			return err
+		}
+		c.AfterCall = append(c.AfterCall, cl)
 	case "requires", "ensures":
 		cl, err := parseClause(head, rest, src)
 		if err != nil {
